@@ -748,6 +748,25 @@ def html_requires(c):
     return coupling(d[r["depth"]].t, d.get(tf, MISSING) if tf else MISSING, RHO)
 
 
+def html_no_removable_node(c):
+    """Class invariant of the tree (needed by the walker side: _process_node drops a node whose tag is removable TOGETHER WITH
+    ITS TAIL, i.e. with visible text that follows the element): no node that enters the tree carries a removable tag."""
+    R = reach(c)
+    if R is None:
+        return z3.BoolVal(True)             # (a detached tree already fails I)
+    pre = pre_heap(c)
+    gs = []
+    for r in sorted(R):
+        if r in pre:
+            continue
+        o = c.st.heap.get(r)
+        if o is None or o.kind != "dict" or o.data is None or "tag" not in o.data:
+            continue
+        t = o.data["tag"]
+        gs.append(z3.Not(in_set(t.t, SPEC_REMOVE)) if isinstance(t, VStr) else z3.BoolVal(False))
+    return z3.And(gs) if gs else z3.BoolVal(True)
+
+
 def html_data_stored(c):
     """rho = None: the datum is appended to the text or the tail of exactly one node reachable from root."""
     ch = changes(c, skip_fields(HTML, HCLS, c.ex.module.repo))
@@ -813,7 +832,8 @@ def contracts(reg):
             params=[("self", selfm()), ("tag", P_STR), ("attrs", P_ATTRS)] + GHOST,
             requires=req,
             ensures=[("I-preserved-under-Start(t)", lambda c, inv=inv: inv(c, spec_start(RHO, c.args["tag"].t))),
-                     ("inside-region-nothing-else-changes", lambda c, sk=sk: z3.Implies(RHO.on, frame(c, sk(c))))],
+                     ("inside-region-nothing-else-changes", lambda c, sk=sk: z3.Implies(RHO.on, frame(c, sk(c))))]
+            + ([("no-removable-element-enters-the-tree-(the-walker-drops-such-a-node-with-its-tail)", html_no_removable_node)] if cls == HCLS else []),
             modifies=("self",),
         ))
         out.append(FnContract(
@@ -1135,7 +1155,7 @@ def known_findings(kf, violations, repo, tier):
                     "witness_replay": str(res.get("observed", res.get("note", "")))[:400]})
     return out
 
-EXTRA = [policy, C17_sites.tokeniser_configuration, C17_sites.input_provenance, C17_sites.native_scope]
+EXTRA = [policy, C17_sites.tokeniser_configuration, C17_sites.input_provenance, C17_sites.native_scope, C17_sites.mhtml_fallback_scope]
 
 TRUSTED = ["html.parser.HTMLParser: feed(text) calls the overridden handlers with an event sequence; <x/> = Start then End; "
            "tag names are compared through str.lower; HTMLParser.__init__ touches only its own private fields; "
